@@ -439,7 +439,7 @@ pub fn run(tier: Tier, seed: u64, replay: Option<&std::path::Path>) -> i32 {
         tier,
         seed,
         replay,
-        (800, 5000),
+        (800, 12000),
         30,
         strategy,
         run_case,
